@@ -46,6 +46,27 @@ CLAIMS = {
              "constructors) and read_scriptint; rustc THIR. Decoder state machine only partially covered.",
         tech=STATIC + "symbolic template extraction + linear-form comparison of size terms + exhaustive lexer decision table",
         engine="symx+tablex"),
+    "C07": dict(
+        cat="other",
+        text="Decides that the lift table is the specification's abstract semantics evaluated on the right children: "
+             "each of the 30 arms of Miniscript::lift is extracted symbolically (children as opaque lifted policies in pop "
+             "order) and compared with the oracle up to commutativity; lift_check failure aborts the fold; tr / taptree / "
+             "sh / wsh / pkh / wpkh / bare lifts and Concrete::lift are extracted the same way.",
+        note="Trusted: spec/semantics.py; model of generic tree iterators; rustc THIR. Semantic equivalence over all "
+             "worlds and `normalized()` are not decided here.",
+        tech=STATIC + "symbolic per-variant extraction of the lift fold from THIR compared with a specification table",
+        engine="symx"),
+    "C09": dict(
+        cat="other",
+        text="Decides structural necessary conditions, not measured bounds: every ExtData rule's witness count / size / "
+             "scriptSig-size figure (max-plus expression over the children's figures, extracted symbolically) dominates "
+             "the size image of the satisfaction template; multi / multi_a / thresh on grids; pk_cost, static_ops and "
+             "has_free_verify agree with the encoder's template; limit comparisons pair the right figure with the right "
+             "limit; constants are Bitcoin's; placeholder sizes match what is produced.",
+        note="Trusted: spec/satisfaction.py, spec/script.py, spec/limits.py; rustc THIR. Executed-opcode and exec-stack "
+             "depth figures, and measured witnesses, are not decided.",
+        tech=STATIC + "symbolic extraction of accounting rules as max-plus / linear forms, domination check against template images",
+        engine="symx"),
     "C19": dict(
         cat="other",
         text="Derived impls are structural by construction (census). For every hand-written Eq/Ord/Hash/Clone impl "
